@@ -43,7 +43,7 @@ def harness_files():
                                "kind": kv.get("kind", "proof"), "bound": kv.get("bound", ""), "fn": kv.get("fn", ""),
                                "timeout": int(kv.get("timeout", "600")), "stubbing": kv.get("stubbing", "no") == "yes",
                                "file": f, "crate": crate, "target": target, "desc": kv.get("desc", "")})
-        if crate and hs:
+        if crate:
             out.append({"file": f, "path": path, "crate": crate, "target": target, "harnesses": hs})
     return out
 
@@ -113,7 +113,7 @@ def inject(repo, scratch, crate):
         modname = "verif_kani_" + hf["file"][:-3]
 
         def tr_mod(lines, hf=hf, modname=modname):
-            return lines + ["#[cfg(any(kani, verif_replay))]", '#[path = "%s"]' % hf["path"], "mod %s;" % modname]
+            return lines + ["#[cfg(any(kani, verif_replay))]", '#[path = "%s"]' % hf["path"], "pub(crate) mod %s;" % modname]
         add_lines(hf["target"], tr_mod)
     return added
 
@@ -144,8 +144,11 @@ def run_kani(scratch, crate, harness, timeout, extra=()):
 def classify(r):
     out = r["out"]
     res = {"status": "tool-error", "checks": None, "failed_checks": [], "covers": None, "solver_s": None}
-    if r["timeout"]:
+    if r["timeout"] or "CBMC timed out" in out:
         res["status"] = "timeout"
+        return res
+    if "CBMC failed" in out and "Failed Checks" not in out:
+        res["status"] = "tool-error"
         return res
     m = re.search(r"\*\* (\d+) of (\d+) failed", out)
     if m:
@@ -247,8 +250,8 @@ def run_property(prop, tier, repo, workdir, ledger, seed):
     hs = [h for h in all_harnesses() if prop in h["props"] and (tier == "thorough" or h["tier"] == "quick")]
     skipped = [h for h in all_harnesses() if prop in h["props"] and h not in hs]
     for h in skipped:
-        if h["kind"] == "bounded":
-            res["bounded"].append({"name": h["name"], "bound": h["bound"], "status": "not run (thorough tier only)"})
+        if h["kind"] in ("bounded", "attempt"):
+            res["bounded"].append({"name": h["name"], "kind": h["kind"], "bound": h["bound"] or "unbounded attempt under a time cap", "status": "not run (thorough tier only)"})
     if not hs:
         return res
     covers_ok = covers_all = 0
@@ -347,10 +350,10 @@ def run_property(prop, tier, repo, workdir, ledger, seed):
             else:
                 o["status"] = "undecided"
                 why = "unwinding bound too small" if c.get("unwinding") else c["status"]
-                if h["kind"] != "bounded":
+                if h["kind"] not in ("bounded", "attempt"):
                     res["undecided"].append("%s: %s" % (name, why))
-            if h["kind"] == "bounded":
-                res["bounded"].append({"name": h["name"], "bound": h["bound"], "status": {"discharged": "passed within the bound", "failed": "FAILED"}.get(o["status"], "not finished (%s)" % c["status"]),
+            if h["kind"] in ("bounded", "attempt"):
+                res["bounded"].append({"name": h["name"], "kind": h["kind"], "bound": h["bound"] or "unbounded attempt under a time cap", "status": {"discharged": "passed within the bound", "failed": "FAILED"}.get(o["status"], "not finished (%s)" % c["status"]),
                                        "checks": c["checks"], "solver_s": c["solver_s"]})
                 if o["status"] == "failed":
                     res["obligations"].append(o)
@@ -370,7 +373,7 @@ def update_ledger(repo, workdir):
     for prop in sorted(set(p for h in all_harnesses() for p in h["props"] if p)):
         pass
     # run all harnesses through run_property-like path per crate using a pseudo property
-    hs = all_harnesses()
+    hs = [h for h in all_harnesses() if h["kind"] != "attempt"]
     for crate in sorted(set(h["crate"] for h in hs)):
         chs = [h for h in hs if h["crate"] == crate]
         scratch = os.path.join(workdir, "k-" + crate)
